@@ -2,6 +2,7 @@ package checks
 
 import (
 	"fmt"
+	"github.com/uhn/ggql/pkg/ggql"
 	"regexp"
 	"sort"
 	"strconv"
@@ -43,6 +44,10 @@ func (C06) Components() map[string]string {
 	}
 }
 
+// c06Depth is the value ggql.MaxResolveDepth is set to for the current run (0 =
+// left alone).
+var c06Depth int
+
 var fragSeg = regexp.MustCompile(`^fragment at \d+:\d+$`)
 
 type c06Case struct {
@@ -54,6 +59,12 @@ func resolveTracked(q *workload.Query, strat workload.Strategy, req *workload.Re
 	z, err := workload.NewZoo(q, strat)
 	if err != nil {
 		return nil, nil, "cannot build root: " + err.Error()
+	}
+	// a tuning knob of the library, assigned after the root exists
+	if c06Depth > 0 {
+		old := ggql.MaxResolveDepth
+		ggql.MaxResolveDepth = c06Depth
+		defer func() { ggql.MaxResolveDepth = old }()
 	}
 	tr = &workload.Tracker{Plan: plan, NoBadLeaf: strat == workload.StratReflect}
 	z.SetTracker(tr)
@@ -357,7 +368,7 @@ func c06Check(strat workload.Strategy, pathAware bool, r0 map[string]interface{}
 				}
 				twinSeen[code] = true
 			}
-			if f.Kind == workload.FaultGGQLError || f.Kind == workload.FaultWrapGGQL {
+			if f.Kind == workload.FaultGGQLError || f.Kind == workload.FaultWrapGGQL || f.Kind == workload.FaultOwnPath {
 				ext, _ := m["extensions"].(map[string]interface{})
 				if ext == nil || ext["code"] != "E"+strconv.Itoa(f.N) {
 					return "extensions_lost", fmt.Sprintf("failure at %s carried extensions {code: E%d}, the entry has %v", f.Path, f.N, m["extensions"])
@@ -462,7 +473,7 @@ func stripFrag(p []interface{}) []interface{} {
 }
 
 var c06Kinds = []string{workload.FaultError, workload.FaultGGQLError, workload.FaultErrorGroup, workload.FaultBadLeaf,
-	workload.FaultGroupExt, workload.FaultNestedGrp, workload.FaultBadList, workload.FaultTwinGroup, workload.FaultWrapGroup, workload.FaultWrapGGQL}
+	workload.FaultGroupExt, workload.FaultNestedGrp, workload.FaultBadList, workload.FaultTwinGroup, workload.FaultWrapGroup, workload.FaultWrapGGQL, workload.FaultOwnPath}
 
 func (c C06) Run(t *tape.Tape, opt core.RunOpt) (res core.Result) {
 	strat := []workload.Strategy{workload.StratInterface, workload.StratInterface, workload.StratAnyWrapped, workload.StratAnyWrapped, workload.StratReflect, workload.StratAny}[t.Draw(6)]
@@ -475,6 +486,7 @@ func (c C06) Run(t *tape.Tape, opt core.RunOpt) (res core.Result) {
 	req := workload.GenRequest(t, workload.ReqOpt{Strat: strat, NoErrors: true, UniqueKeys: true, NoUnion: pathAware, NoFragments: !pathAware, Nick: nick, Ghost: nick,
 		MultiOp: t.Bool(1, 5), VarInLiteral: strat != workload.StratReflect, ShuffleArgs: true, MaxDepth: 2 + t.Draw(4)})
 	thorough := opt.Tier == "thorough"
+	c06Depth = []int{0, 0, 40, 250}[t.Draw(4)]
 	r0, tr0, pan := resolveTracked(q, strat, req, &workload.FaultPlan{})
 	res.Evaluations = 1
 	res.Sig = core.Hash64("r0", strat.String(), req.Src, req.Op)
